@@ -45,6 +45,9 @@ SUBS = [
     ('glue.core.data_combo_helper.DataCollectionComboHelper', 'DataUpdateMessage', '_on_data_update'),
 ]
 
+SCOPE = ('glue.viewers', 'glue.core.layer_artist', 'glue.core.data_combo_helper', 'glue.core.state_objects',
+         'glue.core.application_base')
+
 ITER_EXCEPTIONS = {
     ('glue.viewers.common.viewer:Viewer._sync_state_layers', 'self.state.layers'):
         'every container mutation notifies synchronously, so at most one entry is stale per call (confirmed by reading; not '
@@ -221,11 +224,13 @@ def rule_c(ctx, ix):
 
 def rule_d(ctx, ix):
     R = 'C18.d'
-    ctx.describe(R, 'package-wide: no loop mutates the live collection it iterates', floor=300)
+    ctx.describe(R, 'viewer / picker / layer-artist modules: no loop mutates the live collection it iterates', floor=100)
     from ..index import Func
     nloops = 0
     used = set()
     for m in ix.modules.values():
+        if not m.name.startswith(SCOPE):
+            continue
         owner = {}
         for cn in ast.walk(m.tree):
             if isinstance(cn, ast.ClassDef):
